@@ -3,12 +3,17 @@ package main
 // component "ratelimit" (C19, runtime part): the recovery consumer is built by the REAL NewRecoveryConsumer (so the limiter
 // is the one the code constructs from configuration), then detached from its Kafka client; records are pushed as fast as
 // possible and the time until the last recovery event is measured.
-// input: "rate <r> parts <k> n <n>"
+// input: "rate <r> parts <k> n <n> [seq|revoke]"
+//   seq:    the partitions' windows (n/k records each) are recovered one after the other, each to completion, so that the
+//           assignment changes k times while the limiter is in use
+//   revoke: once the burst is used up and a recovery record is waiting for its token, the main consumer gets a
+//           revocation and then a record; measured: how long that record takes
 
 import (
 	"fmt"
 	"strconv"
 	"strings"
+	"sync"
 	"time"
 
 	"github.com/confluentinc/confluent-kafka-go/kafka"
@@ -25,6 +30,8 @@ func genRateLimit(r *rng, n int, tier string, emit func(string)) {
 	emit("rate 200 parts 1 n 260")
 	emit("rate 1000 parts 4 n 800")
 	emit("rate 1500 parts 2 n 1400")
+	emit("rate 200 parts 6 n 600 seq")
+	emit("rate 1 parts 1 n 104 revoke")
 	if tier == "thorough" {
 		emit("rate 50 parts 3 n 150")
 		emit("rate 5000 parts 4 n 4600")
@@ -38,6 +45,11 @@ func genRateLimit(r *rng, n int, tier string, emit func(string)) {
 
 func execRateLimit(input string) string {
 	f := strings.Fields(input)
+	mode := ""
+	if len(f) == 7 {
+		mode = f[6]
+		f = f[:6]
+	}
 	if len(f) != 6 {
 		return "bad-input"
 	}
@@ -61,7 +73,11 @@ func execRateLimit(input string) string {
 	per := (n + parts - 1) / parts
 	for p := 0; p < parts; p++ {
 		tps = append(tps, kafka.TopicPartition{Topic: &topic, Partition: int32(p)})
-		rc.RequestRecovery(int32(p), 0, kafka.Offset(per+10))
+		if mode == "seq" {
+			rc.RequestRecovery(int32(p), 0, kafka.Offset(per)) // exactly the window: the record at `per` completes it
+		} else {
+			rc.RequestRecovery(int32(p), 0, kafka.Offset(per+10))
+		}
 	}
 	rc.SetAssignedPartitions(tps)
 	_ = rc.RefreshAssignments()
@@ -69,16 +85,27 @@ func execRateLimit(input string) string {
 	done := make(chan [2]int, 1)
 	stop := make(chan struct{})
 	var last time.Time
+	var mu sync.Mutex
+	flaggedSoFar := 0
+	var mainSeen time.Time
 	go func() {
 		flagged, total := 0, 0
 		for {
 			select {
 			case ev := <-sendCh:
+				mu.Lock()
+				if !ev.Recovery && mode == "revoke" {
+					mainSeen = time.Now()
+					mu.Unlock()
+					continue
+				}
 				total++
 				if ev.Recovery {
 					flagged++
+					flaggedSoFar = flagged
 				}
 				last = time.Now()
+				mu.Unlock()
 			case <-stop:
 				done <- [2]int{total, flagged}
 				return
@@ -87,16 +114,67 @@ func execRateLimit(input string) string {
 	}()
 	start := time.Now()
 	sent := 0
-	for o := 0; sent < n; o++ {
-		for p := 0; p < parts && sent < n; p++ {
-			rc.VerifProcessEvent(recMsg(&topic, int32(p), int64(o)))
-			sent++
+	revokeMs := int64(-1)
+	switch mode {
+	case "seq":
+		for p := 0; p < parts; p++ {
+			for o := 0; o <= per; o++ { // the record at offset `per` completes the window and changes the assignment
+				rc.VerifProcessEvent(recMsg(&topic, int32(p), int64(o)))
+			}
+		}
+		n = parts * per
+	case "revoke":
+		pushed := make(chan struct{})
+		go func() {
+			for o := 0; o < n; o++ {
+				rc.VerifProcessEvent(recMsg(&topic, 0, int64(o)))
+			}
+			close(pushed)
+		}()
+		// wait until the burst is used up and the next record is waiting for its token
+		for t0 := time.Now(); time.Since(t0) < 5*time.Second; time.Sleep(time.Millisecond) {
+			mu.Lock()
+			k := flaggedSoFar
+			mu.Unlock()
+			if k >= burst {
+				break
+			}
+		}
+		time.Sleep(30 * time.Millisecond)
+		t0 := time.Now()
+		kc.VerifProcessEvent(kafka.RevokedPartitions{})
+		kc.VerifProcessEvent(recMsg(&topic, 0, 7))
+		for time.Since(t0) < 5*time.Second {
+			mu.Lock()
+			seen := mainSeen
+			mu.Unlock()
+			if !seen.IsZero() {
+				revokeMs = seen.Sub(t0).Milliseconds()
+				break
+			}
+			time.Sleep(time.Millisecond)
+		}
+		select {
+		case <-pushed:
+		case <-time.After(8 * time.Second):
+		}
+		mu.Lock()
+		n = flaggedSoFar // after the revocation the remaining records are not emitted
+		mu.Unlock()
+	default:
+		for o := 0; sent < n; o++ {
+			for p := 0; p < parts && sent < n; p++ {
+				rc.VerifProcessEvent(recMsg(&topic, int32(p), int64(o)))
+				sent++
+			}
 		}
 	}
 	time.Sleep(20 * time.Millisecond)
 	stop <- struct{}{}
 	res := <-done
+	mu.Lock()
 	elapsed := last.Sub(start)
+	mu.Unlock()
 	// main consumer events are never delayed by the limit (the bucket is empty right now)
 	mainN := 10000
 	go func() {
@@ -111,5 +189,5 @@ func execRateLimit(input string) string {
 	}
 	<-done
 	mainMs := time.Since(ms).Milliseconds()
-	return fmt.Sprintf("elapsedMs=%d emitted=%d flagged=%d mainMs=%d mainN=%d limit=%d burst=%d", elapsed.Milliseconds(), res[0], res[1], mainMs, mainN, int(limit), burst)
+	return fmt.Sprintf("elapsedMs=%d emitted=%d flagged=%d mainMs=%d mainN=%d limit=%d burst=%d n=%d revokeMs=%d", elapsed.Milliseconds(), res[0], res[1], mainMs, mainN, int(limit), burst, n, revokeMs)
 }
